@@ -14,7 +14,7 @@ CHECKS = {
  "C02": dict(
   level="exploration", design="§5 C02", engine="detsim",
   technique="deterministic consensus simulation over the real LinkApplication: Byzantine proposer gossips real-proposer-path blocks with one enumerated consensus-level corruption (consistently re-hashed, correctly signed proposal); trace oracle on correct validators' votes, ApplyBlock outcome, SIGTERM-to-self trap",
-  text="3 correct state machines with the real application, mempool, evidence pool and block executor; at its turn the Byzantine proposer sends a block with one of 25 corruptions (header fields, LastCommit defects, evidence defects) at heights 1..5. "
+  text="3 correct state machines with the real application, mempool, evidence pool and block executor; at its turn the Byzantine proposer sends a block with one of 26 corruptions (header fields, LastCommit defects, evidence defects) at heights 1..5. "
        "Violation: a correct node prevotes/precommits it, ApplyBlock fails after a commit, the process-kill request is observed, a panic, or no recovery commit in the fault-free continuation. The repository's own ValidateBlock is cross-checked against the by-construction knowledge that the block is invalid. Held on the corruptions x heights explored.",
   note="rounds > 0 for the corrupted proposal and joint corruptions are not yet driven. One genuine defect found and fixed (known_findings.txt)."),
  "C16": dict(
